@@ -1,6 +1,6 @@
 package main
 
-// container/tree (+ xsort.LessCompare, iterator.While) -> Juniper.Gen.Tree.
+// container/tree (+ xsort.LessCompare) -> Juniper.Gen.Tree.
 // Consumed by Model/BTree.lean (C01, C02, C03).
 
 import (
@@ -76,24 +76,27 @@ func init() {
 		// steal / siblings / merge / mergeTwo
 		e("btree.steal", "stealRight", "if[0].cond", "Bool", cat(B("hasRight"), I("rn")), map[string]string{"right!=nil": "hasRight", "right.n": "rn"}),
 		e("btree.steal", "stealLeft", "if[1].cond", "Bool", cat(B("hasLeft"), I("ln")), map[string]string{"left!=nil": "hasLeft", "left.n": "ln"}),
-		Site{Module: mod, Pkg: pkg, Func: "btree.steal", Name: "stealRotations", Kind: Custom,
-			Custom: allOf(
-				stmtsAre("btree.steal", "if[0].body", []string{"t.rotateLeft(x,right)", "returntrue"}),
-				stmtsAre("btree.steal", "if[1].body", []string{"t.rotateRight(left,x)", "returntrue"}))},
+		// which helper is called on which nodes (the model executes what is written here)
+		Site{Module: mod, Pkg: pkg, Name: "treeCallTypes", Kind: Custom, Custom: func(c *Ctx, s *Site) (string, error) { return treeCallTypes, nil }},
+		Site{Module: mod, Pkg: pkg, Func: "btree.steal", Name: "stealRightCall", Kind: Custom,
+			Custom: nodeCall("btree.steal", "if[0].body", []string{"returntrue"}, "stealRightCall")},
+		Site{Module: mod, Pkg: pkg, Func: "btree.steal", Name: "stealLeftCall", Kind: Custom,
+			Custom: nodeCall("btree.steal", "if[1].body", []string{"returntrue"}, "stealLeftCall")},
 		e("btree.siblings", "hasLeftSibling", "if[1].cond", "Bool", I("idx"), map[string]string{"idx": "idx"}),
 		e("btree.siblings", "hasRightSibling", "if[2].cond", "Bool", I("idx", "pn"), map[string]string{"idx": "idx", "int(x.parent.n)": "pn"}),
 		e("btree.siblings", "leftSiblingIdx", "index[x.parent.children][0].idx", "Int", I("idx"), map[string]string{"idx": "idx"}),
 		e("btree.siblings", "rightSiblingIdx", "index[x.parent.children][1].idx", "Int", I("idx"), map[string]string{"idx": "idx"}),
 		e("btree.merge", "mergeIntoLeft", "if[0].cond", "Bool", cat(B("hasLeft"), I("ln")), map[string]string{"left!=nil": "hasLeft", "left.n": "ln"}),
-		Site{Module: mod, Pkg: pkg, Func: "btree.merge", Name: "mergeCalls", Kind: Custom,
-			Custom: allOf(
-				stmtsAre("btree.merge", "if[0].body", []string{"t.mergeTwo(left,x)"}),
-				stmtsAre("btree.merge", "if[0].else", []string{"t.mergeTwo(x,right)"}))},
+		Site{Module: mod, Pkg: pkg, Func: "btree.merge", Name: "mergeLeftCall", Kind: Custom,
+			Custom: nodeCall("btree.merge", "if[0].body", nil, "mergeLeftCall")},
+		Site{Module: mod, Pkg: pkg, Func: "btree.merge", Name: "mergeRightCall", Kind: Custom,
+			Custom: nodeCall("btree.merge", "if[0].else", nil, "mergeRightCall")},
 		present("btree.mergeTwo", "mergeZeroesRight", "", "right.n = 0"),
 		e("btree.mergeTwo", "mergeRootCheck", "if[1].cond", "Bool", I("parentId", "rootId"), map[string]string{"parent": "parentId", "t.root": "rootId"}),
 		e("btree.mergeTwo", "mergeRootEmpty", "if[2].cond", "Bool", I("pn"), map[string]string{"parent.n": "pn"}),
-		Site{Module: mod, Pkg: pkg, Func: "btree.mergeTwo", Name: "mergeCollapsesToLeft", Kind: Custom,
-			Custom: allOf(stmtsAre("btree.mergeTwo", "if[2].body", []string{"t.root=left", "left.parent=nil"}))},
+		// root collapse: the two statements of `if parent.n == 0 { t.root = left; left.parent = nil }`
+		present("btree.mergeTwo", "mergeCollapseSetsRoot", "if[2].body", "t.root = left"),
+		present("btree.mergeTwo", "mergeCollapseClearsParent", "if[2].body", "left.parent = nil"),
 		e("btree.mergeTwo", "mergeCascades", "if[3].cond", "Bool", cat(I("pn"), B("stole")), map[string]string{"parent.n": "pn", "t.steal(parent)": "stole"}),
 		// rotateRight / rotateLeft / removeOne zeroing
 		present("btree.rotateRight", "rotateRightZeroesKey", "", "left.keys[left.n-1] = zeroK"),
@@ -167,12 +170,40 @@ func init() {
 		// forward/backward iterator: which seek when lost
 		Site{Module: mod, Pkg: pkg, Func: "forwardIterator.Next", Name: "iterReseeks", Kind: Custom,
 			Custom: allOf(
-				stmtsAre("forwardIterator.Next", "if[0].body", []string{"iter.c.SeekFirstGreaterOrEqual(iter.c.Key())"}),
-				stmtsAre("backwardIterator.Next", "if[0].body", []string{"iter.c.SeekLastLessOrEqual(iter.c.Key())"}))},
+				stmtsAre("forwardIterator.Next", "if[1].body", []string{"iter.c.SeekFirstGreaterOrEqual(iter.c.Key())"}),
+				stmtsAre("backwardIterator.Next", "if[1].body", []string{"iter.c.SeekLastLessOrEqual(iter.c.Key())"}))},
 		Site{Module: mod, Pkg: pkg, Func: "forwardIterator.Next", Name: "iterReadsThenSteps", Kind: Custom,
 			Custom: allOf(
 				stmtsInOrder("forwardIterator.Next", []string{"k:=iter.c.Key()", "v:=iter.c.valueUnchecked()", "iter.c.Next()"}),
 				stmtsInOrder("backwardIterator.Next", []string{"k:=iter.c.Key()", "v:=iter.c.valueUnchecked()", "iter.c.Prev()"}))},
+		// the far bound of Range / RangeReverse: the iterator's own sticky cut-off (`done`, `inRange`), tested on the
+		// key before the value is read
+		e("forwardIterator.Next", "fwdChecksDone", "if[0].cond", "Bool", B("done"), map[string]string{"iter.done": "done"}),
+		e("backwardIterator.Next", "bwdChecksDone", "if[0].cond", "Bool", B("done"), map[string]string{"iter.done": "done"}),
+		e("forwardIterator.Next", "fwdStops", "if[3].cond", "Bool", B("hasPred", "inRange"),
+			map[string]string{"iter.inRange!=nil": "hasPred", "iter.inRange(k)": "inRange"}),
+		e("backwardIterator.Next", "bwdStops", "if[3].cond", "Bool", B("hasPred", "inRange"),
+			map[string]string{"iter.inRange!=nil": "hasPred", "iter.inRange(k)": "inRange"}),
+		Site{Module: mod, Pkg: pkg, Func: "forwardIterator.Next", Name: "fwdCutoffSticky", Kind: Custom,
+			Custom: allOf(
+				stmtsAre("forwardIterator.Next", "if[0].body", []string{"returnzero,false"}),
+				stmtsAre("forwardIterator.Next", "if[3].body", []string{"iter.done=true", "returnzero,false"}))},
+		Site{Module: mod, Pkg: pkg, Func: "backwardIterator.Next", Name: "bwdCutoffSticky", Kind: Custom,
+			Custom: allOf(
+				stmtsAre("backwardIterator.Next", "if[0].body", []string{"returnzero,false"}),
+				stmtsAre("backwardIterator.Next", "if[3].body", []string{"iter.done=true", "returnzero,false"}))},
+		// the cut-off test sits between the key read and the value read
+		Site{Module: mod, Pkg: pkg, Func: "forwardIterator.Next", Name: "iterStopBeforeValue", Kind: Custom,
+			Custom: allOf(
+				stmtsInOrder("forwardIterator.Next", []string{"k:=iter.c.Key()", "ifiter.inRange!=nil&&!iter.inRange(k){iter.done=truereturnzero,false}", "v:=iter.c.valueUnchecked()"}),
+				stmtsInOrder("backwardIterator.Next", []string{"k:=iter.c.Key()", "ifiter.inRange!=nil&&!iter.inRange(k){iter.done=truereturnzero,false}", "v:=iter.c.valueUnchecked()"}))},
+		// the four constructors: a fresh iterator is not cut off; Forward/Backward install no predicate
+		Site{Module: mod, Pkg: pkg, Func: "cursor.Forward", Name: "iterCtorsFresh", Kind: Custom,
+			Custom: allOf(
+				stmtsAre("cursor.Forward", "", []string{"return&forwardIterator[K,V]{c:*c}"}),
+				stmtsAre("cursor.ForwardWhile", "", []string{"return&forwardIterator[K,V]{c:*c,inRange:inRange}"}),
+				stmtsAre("cursor.Backward", "", []string{"return&backwardIterator[K,V]{c:*c}"}),
+				stmtsAre("cursor.BackwardWhile", "", []string{"return&backwardIterator[K,V]{c:*c,inRange:inRange}"}))},
 		// Range / RangeReverse tables
 		Site{Module: mod, Pkg: pkg, Name: "rangeTypes", Kind: Custom, Custom: func(c *Ctx, s *Site) (string, error) { return rangeTypes, nil }},
 		Site{Module: mod, Pkg: pkg, Func: "btree.Range", Name: "rangeSeek", Kind: Custom, Custom: seekTable("btree.Range", 0, "rangeSeek")},
@@ -182,6 +213,16 @@ func init() {
 		// Map / Set are handles that forward
 		Site{Module: mod, Pkg: pkg, Name: "mapIsHandle", Kind: Custom, Custom: isHandle("Map", "mapIsHandle")},
 		Site{Module: mod, Pkg: pkg, Name: "setIsHandle", Kind: Custom, Custom: isHandle("Set", "setIsHandle")},
+		// receiver kinds of the shared object behind a handle (consumed by Model/TreeHandle.lean)
+		Site{Module: mod, Pkg: pkg, Name: "btreeRecvIsPtr", Kind: Custom, Custom: recvTable("btree", "btreeRecvIsPtr")},
+		Site{Module: mod, Pkg: pkg, Func: "newBtree", Name: "newBtreeReturnsPtr", Kind: Custom, Custom: returnsAddrOf("newBtree", "btree", "newBtreeReturnsPtr")},
+		Site{Module: mod, Pkg: pkg, Name: "btreeWritesHeader", Kind: Custom, Custom: headerWriters("btree", "btreeWritesHeader")},
+		Site{Module: mod, Pkg: pkg, Name: "mapBodies", Kind: Custom, Custom: bodyTable("Map",
+			[]string{"Len", "Put", "Delete", "Get", "Contains", "First", "Last", "Iterate", "Range", "RangeReverse"}, "mapBodies")},
+		Site{Module: mod, Pkg: pkg, Name: "setBodies", Kind: Custom, Custom: bodyTable("Set",
+			[]string{"Len", "Add", "Remove", "Contains", "First", "Last", "Iterate", "Range", "RangeReverse"}, "setBodies")},
+		Site{Module: mod, Pkg: pkg, Name: "ctorBodies", Kind: Custom, Custom: bodyTable("",
+			[]string{"NewMap", "NewMapCmp", "NewSet", "NewSetCmp"}, "ctorBodies")},
 		Site{Module: mod, Pkg: pkg, Func: "Map.Put", Name: "mapForwards", Kind: Custom, Custom: allOf(
 			stmtsAre("Map.Len", "", []string{"returnm.t.size"}),
 			stmtsAre("Map.Put", "", []string{"m.t.Put(k,v)"}),
@@ -207,14 +248,9 @@ func init() {
 			stmtsAre("Set.RangeReverse", "", []string{"returniterator.Map(s.t.RangeReverse(lower,upper),func(pairKVPair[T,struct{}])T{returnpair.Key})"}),
 			stmtsAre("NewSet", "", []string{"returnSet[T]{t:newBtree[T,struct{}](xsort.LessCompare(less)),}"}),
 			stmtsAre("NewSetCmp", "", []string{"returnSet[T]{t:newBtree[T,struct{}](compare),}"}))},
-		// xsort.LessCompare (whole closure) and iterator.While
+		// xsort.LessCompare (whole closure)
 		Site{Module: mod, Pkg: "xsort", Func: "LessCompare", Name: "lessCompare", Kind: Func, Sel: "funclit[0].body",
 			Params: B("lab", "lba"), Vars: map[string]string{"less(a,b)": "lab", "less(b,a)": "lba"}},
-		Site{Module: mod, Pkg: "iterator", Func: "whileIterator.Next", Name: "whileChecksDone", Kind: Expr, Sel: "if[0].cond", Type: "Bool",
-			Params: B("done"), Vars: map[string]string{"iter.done": "done"}},
-		Site{Module: mod, Pkg: "iterator", Func: "whileIterator.Next", Name: "whileStops", Kind: Expr, Sel: "if[2].cond", Type: "Bool",
-			Params: B("keep"), Vars: map[string]string{"iter.f(item)": "keep"}},
-		Site{Module: mod, Pkg: "iterator", Func: "whileIterator.Next", Name: "whileSticky", Kind: Present, Sel: "if[2].body", Text: "iter.done = true"},
 	)
 }
 
@@ -373,7 +409,7 @@ inductive CmpOp where
   deriving DecidableEq, Repr
 
 /-- what a ` + "`case`" + ` of the second switch of Range/RangeReverse returns: the bare cursor iterator or
-` + "`iterator.While(it, fun pair => compare pair.Key <side>.key <op> 0)`" + `; ` + "`fwd`" + ` = ` + "`c.Forward()`" + ` -/
+` + "`c.ForwardWhile(fun k => compare k <side>.key <op> 0)`" + ` (the in-range predicate, tested on the key before the value is read); ` + "`fwd`" + ` = ` + "`c.Forward…`" + ` -/
 inductive StopKind where
   | all (fwd : Bool)
   | while (fwd : Bool) (op : CmpOp) (side : Side)
@@ -487,7 +523,8 @@ func seekTable(fn string, k int, name string) func(c *Ctx, s *Site) (string, err
 	}
 }
 
-// stopTable: switch #k of fn, each case = `return c.Forward()` or `return iterator.While(c.Forward(), func(pair) bool { return t.compare(pair.Key, X.key) OP 0 })`.
+// stopTable: switch #k of fn, each case = `return c.Forward()` or `return c.ForwardWhile(func(k K) bool { return t.compare(k, X.key) OP 0 })`
+// (Backward / BackwardWhile likewise).
 func stopTable(fn string, k int, name string) func(c *Ctx, s *Site) (string, error) {
 	return func(c *Ctx, s *Site) (string, error) {
 		sw, tag, err := nthSwitch(c, s.Pkg, fn, k)
@@ -536,7 +573,13 @@ func stopTable(fn string, k int, name string) func(c *Ctx, s *Site) (string, err
 			if !ok {
 				return "", fmt.Errorf("%s case %s: not a call", fn, lab)
 			}
-			if c.Text(call.Fun) != "iterator.While" {
+			var d string
+			switch c.Text(call.Fun) {
+			case "c.ForwardWhile":
+				d = "true"
+			case "c.BackwardWhile":
+				d = "false"
+			default:
 				d, err := dirOf(call)
 				if err != nil {
 					return "", err
@@ -544,15 +587,15 @@ func stopTable(fn string, k int, name string) func(c *Ctx, s *Site) (string, err
 				rows = append(rows, fmt.Sprintf("(%s, .all %s)", lab, d))
 				continue
 			}
-			if len(call.Args) != 2 {
-				return "", fmt.Errorf("%s case %s: While with %d args", fn, lab, len(call.Args))
+			if len(call.Args) != 1 {
+				return "", fmt.Errorf("%s case %s: %s with %d args", fn, lab, c.Text(call.Fun), len(call.Args))
 			}
-			d, err := dirOf(call.Args[0])
-			if err != nil {
-				return "", err
+			fl, ok := call.Args[0].(*ast.FuncLit)
+			if !ok || fl.Type.Params == nil || len(fl.Type.Params.List) != 1 || len(fl.Type.Params.List[0].Names) != 1 ||
+				fl.Type.Params.List[0].Names[0].Name != "k" {
+				return "", fmt.Errorf("%s case %s: predicate is not a closure over one key k", fn, lab)
 			}
-			fl, ok := call.Args[1].(*ast.FuncLit)
-			if !ok || len(fl.Body.List) != 1 {
+			if len(fl.Body.List) != 1 {
 				return "", fmt.Errorf("%s case %s: predicate is not a one-statement closure", fn, lab)
 			}
 			ret, ok := fl.Body.List[0].(*ast.ReturnStmt)
@@ -568,8 +611,8 @@ func stopTable(fn string, k int, name string) func(c *Ctx, s *Site) (string, err
 				return "", fmt.Errorf("%s case %s: operator %s", fn, lab, be.Op)
 			}
 			cmp, ok := be.X.(*ast.CallExpr)
-			if !ok || c.Text(cmp.Fun) != "t.compare" || len(cmp.Args) != 2 || c.Text(cmp.Args[0]) != "pair.Key" {
-				return "", fmt.Errorf("%s case %s: predicate is not t.compare(pair.Key, _)", fn, lab)
+			if !ok || c.Text(cmp.Fun) != "t.compare" || len(cmp.Args) != 2 || c.Text(cmp.Args[0]) != "k" {
+				return "", fmt.Errorf("%s case %s: predicate is not t.compare(k, _)", fn, lab)
 			}
 			sd, err := sideOf(c.Text(cmp.Args[1]))
 			if err != nil {
